@@ -207,7 +207,8 @@ def fxp_like(x, val=None):
         New Fxp object like `x`.
 
     '''
-    y = x.copy()
+    # a deep copy: storing `val` must not raise the status flags of `x` nor share its config
+    y = x.deepcopy()
     return y(val)
 
 def fxp_sum(x, sizes='best_sizes', axis=None, dtype=None, out=None, vdtype=None):
